@@ -50,6 +50,8 @@ def containsPoint (s : Segment α) (point : V3 α) : Res Bool :=
   | .ok true =>
     let ab := s.stop - s.start
     let ap := point - s.start
+    -- `is_collinear` bounds distance x length: next to a short segment, check the distance itself
+    if (ap.cross ab).length >. (1e-5 : α) * ab.length then .ok false else
     if Num.abs ab.x >. (Num.eps : α) && Num.abs ab.x >=. Num.abs ab.y && Num.abs ab.x >=. Num.abs ab.z then
       .ok (inUnitClosed (ap.x / ab.x))
     else if Num.abs ab.y >. (Num.eps : α) && Num.abs ab.y >=. Num.abs ab.z then
